@@ -457,6 +457,32 @@ def translate():
         if isinstance(fn, ast.FunctionDef) and fn.name == '__init__':
             fp_init = fn
     fp_init_calls_super = bool(fp_init and any(isinstance(st, ast.Expr) and ast.unparse(st.value).endswith('.__init__()') and 'super' in ast.unparse(st.value) for st in fp_init.body))
+    # ---- compression.py: which attributes each Deflate method assigns, directly or through self.<method>() calls (C11: the
+    # receive path, run by the event-loop thread without the write lock, must leave the compressor of the sending threads alone)
+    deflate_touches = []
+    try:
+        co_tree = parse_src('compression.py')
+        co_cls = find_class(co_tree, 'Deflate')
+    except Exception:  # noqa
+        co_cls = None
+    if co_cls is not None:
+        direct = attr_writes(co_cls)
+        calls = {}
+        for fn in co_cls.body:
+            if isinstance(fn, ast.FunctionDef):
+                calls[fn.name] = sorted({n.func.attr for n in ast.walk(fn) if isinstance(n, ast.Call) and isinstance(n.func, ast.Attribute)
+                                         and isinstance(n.func.value, ast.Name) and n.func.value.id in ('self', 'cls') and n.func.attr in direct})
+        def closure(m, seen):
+            if m in seen:
+                return set()
+            seen.add(m)
+            out = {a.split('.')[0] for a in direct.get(m, [])}
+            for c in calls.get(m, []):
+                out |= closure(c, seen)
+            return out
+        deflate_touches = [(m, sorted(closure(m, set()))) for m in sorted(direct)]
+    else:
+        problems.append('compression.Deflate not found')
     facts['ast'] = dict(structure=structure, class_level=class_level,header_sep=ru[0], header_max=ru[1], proxy_sep=pru[0], proxy_max=pru[1],
                         texts=texts, state_attrs=state_attrs, ws_writes=ws_method_writes,
                         session_writes=se_writes, stream_writes=st_writes, fp_writes=fp_writes,
@@ -598,6 +624,9 @@ def initValues : List (String × String × String) :=
 def parserInitCallsReset : Bool := {'true' if parser_init_calls_reset else 'false'}
 def parserResetFresh : Bool := {'true' if parser_reset_fresh else 'false'}
 def frameParserInitCallsSuper : Bool := {'true' if fp_init_calls_super else 'false'}
+/-- for every method of `compression.Deflate`: the attributes of `self` it assigns, directly or through `self.<method>()` calls -/
+def deflateTouches : List (String × List String) :=
+  [{', '.join('(%s, [%s])' % (lean_str(m), ', '.join(lean_str(a) for a in attrs)) for m, attrs in deflate_touches)}]
 /-- keyword arguments `persist` forwards to `connect`: (keyword, variable) -/
 def persistConnectKw : List (String × String) := [{', '.join('(%s, %s)' % (lean_str(a), lean_str(b)) for a, b in persist_kw)}]
 
